@@ -358,6 +358,12 @@ def run(ctx):
             C19_drop.check(ctx, tier)
         except (Inconclusive, Unmodelled) as e:
             ctx.inconclusive.append('C19 drop slice: %s: %s' % (type(e).__name__, str(e)[:300]))
+        # engine M: the decoder / encoder generated by #[derive(RactorClusterMessage)] for a probe enum with every variant shape
+        import C19_derive
+        try:
+            C19_derive.check(ctx, tier)
+        except (Inconclusive, Unmodelled) as e:
+            ctx.inconclusive.append('C19 derive slice: %s: %s' % (type(e).__name__, str(e)[:300]))
     except ImportError as e:
         ctx.inconclusive.append('C19 stream slice unavailable: %s' % e)
     th.join()
@@ -391,6 +397,16 @@ def run(ctx):
 def replay_file(path):
     d = json.load(open(path))
     rp = d.get('replay') or {}
+    if rp.get('which') in ('derive_decode', 'derive_roundtrip', 'derive_battery'):
+        import C19_derive_replay
+        if rp['which'] == 'derive_decode':
+            bad, out = C19_derive_replay.evaluate(rp['kind'], rp['tag'], rp['args'])
+            for t in list(C19_derive_replay.KINDS) + ['Nope']:
+                bad += C19_derive_replay.evaluate(rp['kind'], t, rp['args'])[0]
+        else:
+            bad, _n = C19_derive_replay.battery()
+        print('native generated decoder / encoder:', bad)
+        return 1 if bad else 0
     if rp.get('which') == 'drop':
         import C19_drop_replay
         r = C19_drop_replay.replay(rp['decoder'], rp.get('runtime'))
